@@ -265,6 +265,7 @@ func vfC04QScenario(t *testing.T, plan vfC04QPlan, tr *vfh.Trace, out *vfC04QOut
 	}
 	var connA, connB tpt.CapableConn
 	rawSeen := map[string]bool{}
+	abandoned := map[string]bool{}
 	pn.OnSend = func(from string, n int) {
 		mu.Lock()
 		first := !rawSeen[from]
@@ -465,6 +466,19 @@ func vfC04QScenario(t *testing.T, plan vfC04QPlan, tr *vfh.Trace, out *vfC04QOut
 			if err != nil {
 				out.Err = err.Error()
 				endOnce("qa", "dial-error")
+				// Dial failed: if the other side was handed this connection it must see it closed now, not
+				// only when its own owner gives it up (5 s is far below the idle time-out; keep-alives
+				// would keep an abandoned connection alive for ever)
+				time.Sleep(5 * time.Second)
+				mu.Lock()
+				cb := connB
+				mu.Unlock()
+				if cb != nil && !cb.IsClosed() {
+					tr.Emit("note", "what", "peer-still-sees-the-connection-open-after-dial-error")
+					mu.Lock()
+					abandoned["a"] = true
+					mu.Unlock()
+				}
 				done <- struct{}{}
 				done <- struct{}{}
 				return
@@ -512,7 +526,7 @@ wait:
 	if n1 == n0 {
 		mu.Lock()
 		for _, s := range []string{"a", "b"} {
-			if rawSeen[s] {
+			if rawSeen[s] && !abandoned[s] {
 				led.RawClose("q" + s)
 			}
 		}
